@@ -24,7 +24,7 @@ from cryptography.hazmat.primitives.asymmetric import utils as asym_utils
 from ..framework import Check, Violation
 from ..xplore import HarnessError, Stats
 from ..env import Rng, patched
-from ..att import layout as L, sgx as S
+from ..att import layout as L, sgx as S, seams
 from ..simdev.base import World
 from ..simdev.attdev import (LedgerFactory, GenuineLedger, SgxPlatform, GenuineSgx,
                               ledger_seed)
@@ -59,29 +59,30 @@ SGX_ENV_FIELDS = [
 ] + [("pubkey.%d" % i, "must-fail") for i in range(6)]
 
 
-class _NoSleep:
-    def __init__(self):
-        self.slept = 0.0
-
-    def sleep(self, n):
-        self.slept += n
-
-    def time(self):
-        return 1700000000.0
-
-
-class _FakeOs:
-    """deterministic os.urandom for admin.onboard / admin.dongle_admin"""
-
-    def __init__(self, label):
-        self.rng = Rng(label)
-
-    def urandom(self, n):
-        return self.rng.bytes(n)
-
-
 class _Operator:
-    """stdin of do_onboard: confirms, then re-plugs the device and presses Enter"""
+    """stdin of do_onboard (sys.stdin.readline, input(), iteration): confirms, then re-plugs
+    the device and presses Enter"""
+    encoding = "utf-8"
+    errors = "strict"
+    closed = False
+
+    def __iter__(self):
+        return self
+
+    def __next__(self):
+        return self.readline()
+
+    def read(self, n=-1):
+        return self.readline()
+
+    def isatty(self):
+        return False
+
+    def fileno(self):
+        raise OSError("the operator has no file descriptor")
+
+    def flush(self):
+        pass
 
     def __init__(self, dev):
         self.dev = dev
@@ -95,13 +96,6 @@ class _Operator:
             self.dev.power_cycle()
             return "\n"
         _harness_fail("do_onboard read stdin a third time")
-
-
-class _NoNetwork:
-    def get(self, url, *a, **k):
-        raise ConnectionError("no network: %s" % url)
-
-    post = get
 
 
 _HARNESS_FAILS = []
@@ -152,8 +146,11 @@ class C15(Check):
         "devices are models written from the firmware sources (verif/simdev/attdev.py); wallet, "
         "device, attestation, issuer keys, hashes and blockchain state are seeded",
         "Ledger runs use the PIN given with -p; the operator answers 'yes' and re-plugs the device "
-        "when asked; time.sleep, os.urandom, secp256k1 key generation, getpass are replaced",
-        "X.509 validity is evaluated at a fixed clock; certificates are generated around it",
+        "when asked (sys.stdin / input()); os.urandom called from any middleware frame or from a "
+        "library below one, random/secrets names in admin.onboard and admin.dongle_admin, getpass and "
+        "time.sleep are owned at library level (verif/att/seams.py)",
+        "X.509 validity: reference instant = noon UTC of the current day (owned clock and real clocks "
+        "agree within the one-day margins); certificates are generated around it",
         "the UD value is given as a 32-byte hex string (no Rootstock node)",
         "open (dont_care) alterations: length/type framing fields of answers and envelope, page "
         "flags, the unused nonce/ephemeral-key answers, the signature and code-hash answers the SGX "
@@ -181,12 +178,16 @@ class C15(Check):
         import admin.attestation_utils as AU
         import admin.certificate_v2 as CV2
         import admin.certificate as CERT
-        import secp256k1
+        import admin.unlock as UNLOCK
         from comm.platform import Platform
         self.harness = harness
+        # seams for the whole process: os.urandom (see seams._urandom), no network, X.509 clock
+        seams.install_urandom()
+        seams.install_no_network()
         self.m = types.SimpleNamespace(ONB=ONB, LA=LA, SA=SA, PK=PK, VL=VL, VS=VS, MISC=MISC, DA=DA,
-                                       AU=AU, CV2=CV2, CERT=CERT, K1LIB=secp256k1,
+                                       AU=AU, CV2=CV2, CERT=CERT, UNLOCK=UNLOCK,
                                        Platform=Platform)
+        seams.install_clock(CV2, S.CLOCK)
         L.calibrate_docs()
         L.calibrate_firmware_order()
         S.calibrate_recorded_envelope()
@@ -492,6 +493,19 @@ class C15(Check):
                                 "accepted with exactly the device's values / files load back"))
         return r
 
+    @contextlib.contextmanager
+    def owned(self, dev, world, streams, modules):
+        """everything nondeterministic around one run: operator terminal (stdin, getpass, whatever
+        name they were imported under), randomness through every door, the admin transport"""
+        m = self.m
+        mods = [m.ONB, m.MISC, m.UNLOCK, m.LA, m.SA, m.PK, m.DA]
+        triples = seams.operator_patches(mods, _Operator(dev), _no_getpass)
+        if "getDongle" in vars(m.DA):
+            triples.append((m.DA, "getDongle", world.get_dongle))
+        with patched(*triples):
+            with seams.owned_randomness(streams, seams.ByteSrc("c15-other"), modules):
+                yield
+
     def stage(self, r, name, fn):
         if r["stage"] is not None:
             return
@@ -540,14 +554,10 @@ class C15(Check):
         if alter is not None and alter["kind"] == "root":
             root = flip(root, alter["index"], alter["mask"])
         r = {"stage": None, "exc": None, "text": None, "mismatches": [], "stdout": ""}
-        det = _FakeOs("c15-k1lib")
-        sleeper = _NoSleep()
         m.Platform.set(m.Platform.LEDGER)
-        with patched((m.DA, "getDongle", world.get_dongle), (m.MISC, "time", sleeper),
-                     (m.ONB, "os", _FakeOs("c15-seed")), (m.DA, "os", _FakeOs("c15-nonce")),
-                     (m.K1LIB, "_gen_private_key", lambda: det.urandom(32)),
-                     (m.ONB, "sys", types.SimpleNamespace(stdin=_Operator(dev))),
-                     (m.MISC, "getpass", _no_getpass)):
+        seed_src, nonce_src = seams.ByteSrc("c15-seed"), seams.ByteSrc("c15-nonce")
+        with self.owned(dev, world, {"onboard": seed_src, "dongle_admin": nonce_src},
+                        [(m.ONB, seed_src), (m.DA, nonce_src)]):
             self.stage(r, "onboard", lambda: m.ONB.do_onboard(
                 ns("ledger", operation="onboard", pin=PIN, output_file_path=setup)))
             dev.power_cycle()
@@ -666,8 +676,7 @@ class C15(Check):
         r = {"stage": None, "exc": None, "text": None, "mismatches": [], "stdout": ""}
         m.Platform.set(m.Platform.SGX, {"sgx_host": "localhost", "sgx_port": 7777})
         S.FixedClock.current = S.CLOCK
-        with patched((m.MISC, "time", _NoSleep()), (m.MISC, "getpass", _no_getpass),
-                     (m.AU, "requests", _NoNetwork()), (m.CV2, "datetime", S.FixedClock)):
+        with self.owned(dev, world, {}, []):
             self.stage(r, "attestation", lambda: m.SA.do_attestation(
                 ns("sgx", operation="attestation", pin=plat.pin.decode(), output_file_path=att,
                    attestation_ud_source=ud.hex())))
